@@ -39,6 +39,8 @@ def run(p, report, tier):
                 "re-created from the constructor parameter only under a test that is false while that attribute exists",
                 floor=2)
     check_incremental_history(p, report)
+    report.rule("R13.6", "the sliding window owns the samples it was given: what is extended into X_train_ is a copy (rows "
+                "of the validated input are views of the caller's array)", floor=1)
     report.rule("R13.5", "an attribute that fit stores on some path it stores on every path (loops are assumed to run "
                 "at least once; lazily created caches under `not hasattr` excepted): otherwise the value of an "
                 "earlier fit survives a later fit that takes the other path (weights_ of a weighted fit)", floor=10)
@@ -119,6 +121,35 @@ def _rest(p, report, tier):
                    detail="the bounded deques keep the newest samples" if not heads else
                    f"`{norm_stmt(heads[0], 70)}` keeps the OLDEST samples of an oversized batch: the window is not the last "
                    "window_size samples")
+    # the window owns its samples: iterating a 2-d array yields VIEWS of its rows, so extending the deque with the
+    # validated input itself keeps references into the caller's buffer (check_array does not copy)
+    xpar = [a for a in add.params() if a != "self"]
+    xname = xpar[1] if len(xpar) > 1 and xpar[0] in ("fit_func", "fit_function") else (xpar[0] if xpar else "X")
+    for n in ast.walk(add.node):
+        if isinstance(n, ast.Call) and isinstance(n.func, ast.Attribute) and n.func.attr in ("extend", "append") \
+                and isinstance(n.func.value, ast.Attribute) and n.func.value.attr == "X_train_" and n.args:
+            a0 = n.args[0]
+
+            def _is_copy(e):
+                if isinstance(e, ast.Call):
+                    cn = (_c01.callname(e) or "").split(".")[-1]
+                    if cn in ("array", "copy", "deepcopy") and not any(k.arg == "copy" and isinstance(k.value, ast.Constant)
+                                                                          and k.value.value is False for k in e.keywords):
+                        return True
+                    if cn == "list" and e.args and isinstance(e.args[0], (ast.ListComp, ast.GeneratorExp)):
+                        return _is_copy(e.args[0].elt)
+                if isinstance(e, (ast.ListComp, ast.GeneratorExp)):
+                    return _is_copy(e.elt)
+                if isinstance(e, ast.Name):
+                    defs = [d.value for d in ast.walk(add.node) if isinstance(d, ast.Assign)
+                            and any(isinstance(t, ast.Name) and t.id == e.id for t in d.targets)]
+                    return bool(defs) and e.id not in add.all_param_names() and all(_is_copy(d) for d in defs)
+                return False
+            okc = _is_copy(a0)
+            report.add("R13.6", "SlidingWindowClassifier._add_samples", f"`{norm_stmt(n, 50)}` stores copies of the samples",
+                       f"{add.file}:{n.lineno}", okc, detail="explicit copy" if okc else
+                       f"the rows appended to the window are views of `{ast.unparse(a0)[:30]}`, i.e. of the caller's array (check_array "
+                       f"does not copy): a caller that re-uses its input buffer for the next chunk overwrites the window")
     report.add("R13.3", "SlidingWindowClassifier._add_samples", "all three windows are extended together",
                f"{add.file}:{add.node.lineno}", set(names) <= ext, detail=f"extended: {sorted(ext)}")
 
